@@ -335,6 +335,34 @@ def concrete_suite(ctx):
     ctx.check(prepared.dims[0] == 'kw' and prepared.shape == (3, len(segs))
               and all(same(prepared.values[k, si], flat[k, int(s.linear_index)]) for si, s in enumerate(segs) for k in range(3)),
               "prepared data holds, for each segment, the values of that segment's cell at every depth (transect built on a second depth coordinate)")
+    # a variable whose surface dimensions are stored the other way round (depth, x, y)
+    tdata = numpy.arange(2 * 4 * 3, dtype=float).reshape(2, 4, 3) + 900
+    ds3 = ds1.assign(tflip=(('k', 'x', 'y'), tdata))
+    tr = T.Transect(ds3, shapely.LineString(lines1[1]), depth='zc')
+    segs = tr.segments
+    prepared = tr.prepare_data_array_for_transect(ds3['tflip'])
+    ctx.check(prepared.dims[0] == 'k' and prepared.shape == (2, len(segs)) and all(
+        same(prepared.values[k, si], tdata[k, int(s.linear_index) % 4, int(s.linear_index) // 4]) for si, s in enumerate(segs) for k in range(2)),
+        "prepared data holds, for each segment, the values of that segment's cell at every depth (surface dimensions stored x, y)")
+    # a grid with a missing cell before a self-intersecting one: the path is cut into the cells that really exist
+    from harness import geomref
+    jj, ii = numpy.meshgrid(numpy.arange(2, dtype=float), numpy.arange(4, dtype=float), indexing='ij')
+    lat2, lon2 = 10.0 + jj, 100.0 + ii
+    lonb = numpy.stack([lon2 - .5, lon2 + .5, lon2 + .5, lon2 - .5], axis=-1)
+    latb = numpy.stack([lat2 - .5, lat2 - .5, lat2 + .5, lat2 + .5], axis=-1)
+    lonb[0, 1] = numpy.nan
+    latb[0, 1] = numpy.nan
+    lonb[1, 2] = lonb[1, 2][[0, 2, 1, 3]]
+    latb[1, 2] = latb[1, 2][[0, 2, 1, 3]]
+    ds4 = builders.cf2d(2, 4, lat=lat2, lon=lon2, lat_bounds=latb, lon_bounds=lonb,
+                        data_vars={'temp': (('k', 'y', 'x'), numpy.arange(16.0).reshape(2, 2, 4))})
+    ds4 = ds4.assign_coords(zc=(('k',), numpy.array([1.0, 3.0]), {'positive': 'down', 'long_name': 'depth', 'units': 'm'}))
+    ref = geomref.check(ctx, ds4, ds4.ems)
+    line = shapely.LineString([(99.6, 11.1), (101.4, 10.9)])           # along the second row: cells 4 and 5, short of the twisted cell 6
+    tr = T.Transect(ds4, line, depth='zc')
+    inside = shapely.unary_union([p for p in ref if p is not None]).intersection(line)
+    ctx.check(abs(sum(s.intersection.length for s in tr.segments) - inside.length) <= 1e-9 and [int(s.linear_index) for s in tr.segments] == [4, 5],
+              'segment lengths add up to the length of the path inside the model (grid with a missing and a twisted cell)')
     for label in deferred[:1]:
         ctx.check(False, label)
 
